@@ -1287,7 +1287,11 @@ func genSeq(r *vh.Rng, k int, thorough bool) Case {
 			ct := genContent(r, m, span, allowPanic)
 			style := "rename"
 			if r.Below(3) == 0 {
-				style = "inplace"
+				// writing in place truncates first: the watcher may load the empty file in between, which is harmless
+				// only if the final content loads (an unloadable final content would otherwise leave an empty entry)
+				if v, _, _ := loadYAML(ct.yaml()); v == 0 {
+					style = "inplace"
+				}
 			}
 			present[f] = true
 			c.Ops = append(c.Ops, Op{Op: "write", F: f, C: &ct, Style: style})
@@ -1410,6 +1414,75 @@ func runCase(self, scratch string, c *Case) {
 	}
 }
 
+// sweepMain (thorough tier): multi-year walks along the implementation's own Next chain.  For every accepted
+// expression the chain t -> Next(t) -> Next(Next(t)) ... is followed from several start instants for up to `steps`
+// activations (sparse schedules cross many years, incl. 2096-2104 around the non-leap year 2100); each link and the
+// second before each activation are written as observations for the extracted Coq model.
+func sweepMain(out *vh.Out) {
+	rng := vh.NewRng(vh.SeedFromEnv() ^ 0x5eed)
+	zones := zonesAvailable()
+	starts := []int64{date(2023, 12, 31, 23, 59, 59), date(2096, 1, 1, 0, 0, 0), date(1999, 12, 31, 12, 0, 0), date(2027, 2, 28, 0, 0, 0)}
+	var exprs []string
+	for _, e := range fixedExprs {
+		exprs = append(exprs, e)
+	}
+	for i := 0; i < 700; i++ {
+		r := rng.Fork(uint64(i))
+		e, _ := genExpr(r, zones)
+		exprs = append(exprs, e)
+	}
+	n := 0
+	for _, e := range exprs {
+		v, d, _ := loadYAML(Content{V: &Val{S: &e}}.yaml())
+		if v != 0 || len(d.Schedule) != 1 {
+			continue
+		}
+		p := d.Schedule[0].Parsed
+		type rec struct {
+			Expr  string      `json:"expr"`
+			Naive bool        `json:"naive"`
+			Obs   [][2]*int64 `json:"obs"`
+		}
+		r := rec{Expr: e, Naive: n%12 == 0}
+		steps := 300
+		if r.Naive {
+			steps = 6
+		}
+		add := func(t int64) int64 {
+			tt := t
+			nx := p.Next(time.Unix(t, 0).UTC())
+			if nx.IsZero() {
+				r.Obs = append(r.Obs, [2]*int64{&tt, nil})
+				return -1
+			}
+			m := nx.Unix() / 60
+			r.Obs = append(r.Obs, [2]*int64{&tt, &m})
+			return nx.Unix()
+		}
+		for _, t0 := range starts {
+			t := t0
+			for i := 0; i < steps; i++ {
+				nt := add(t)
+				if nt < 0 {
+					break
+				}
+				if i%7 == 0 {
+					add(nt - 1)
+				}
+				t = nt
+				if r.Naive && nt-t0 > 40*86400 {
+					break
+				}
+			}
+			if r.Naive {
+				break
+			}
+		}
+		out.Put(r)
+		n++
+	}
+}
+
 var floorG int // goroutines of the idle driver (no daemon instance)
 
 func main() {
@@ -1445,6 +1518,10 @@ func main() {
 			runCase(self, scratch, &c)
 			out.Put(c)
 		}
+		return
+	}
+	if os.Args[2] == "sweep" {
+		sweepMain(out)
 		return
 	}
 	thorough := os.Args[2] == "thorough"
